@@ -42,6 +42,7 @@ let eval_e2e (args : string list) : string =
   | mode :: _cm :: ";" :: rest ->
     let g = (mode = "g") in
     let toks = match rest with [] -> [] | [ "." ] -> [] | [ t ] -> String.split_on_char ',' t | _ -> failwith "e2e args" in
+    let toks = List.filter (fun t -> t <> "" && t.[0] <> 'a') toks in   (* a<api>: the fake wrote a delayed answer *)
     let h = List.rev (List.map event_of toks) in      (* newest first *)
     let l = [ ("late_fetch", mon_late_fetch g h); ("late_commit", mon_late_commit g h);
               ("silent", mon_silent h); ("leave", mon_leave h) ] in
@@ -170,6 +171,23 @@ let eval_nlv (_args : string list) : string =
     if close_returned s then Printf.sprintf "lv=%x" lv else "MODEL:close-not-returned"
   with Stuck m -> "MODEL-STUCK"
 
+(* a generation that ends on its own (failed heartbeat) while another accounted function still runs:
+   gen.close() must wait for it, so no re-join and no return of Close before that function returned *)
+let eval_gse (_args : string list) : string =
+  try
+    let s = run_labels (init (cfg_g true (n 4)))
+        [LGCoord GOk; LGJoin (JOk (n 0)); LGSync GOk; LGOfetch GOk; LRNextCall; LRNextGen; LRSub (n 0); LRStartC; LRStartU;
+         LHbTick (n 0, false); LFnHandler (n 0); LGWaitDone; LGClose;
+         LCloseCall; LCloseStep (n 0); LCloseStep (n 0); LCloseStep (n 0); LCloseStep (n 0);
+         LRNextCall; LRNextCtx; LRCgClose] in
+    let waits = (match s.gph with GCloseWait _ -> true | _ -> false) in
+    let joined_blocked = (step s LGJoined = None) in
+    let no_join = (step s (LGCoord GOk) = None && step s (LGJoin (JOk (n 0))) = None) in
+    let close_blocked = (step s LRCgWait = None && step s (LCloseStep (n 0)) = None) in
+    Printf.sprintf "fnret_before_close=%d,join_before_fnret=%d"
+      (if waits && joined_blocked && close_blocked then 1 else 0) (if no_join then 0 else 1)
+  with Stuck m -> "MODEL-STUCK"
+
 let () =
   try
     while true do
@@ -190,6 +208,7 @@ let () =
                  | "det" -> eval_det args
                  | "cac" -> eval_cac args go_res
                  | "nlv" -> eval_nlv args
+                 | "gse" -> eval_gse args
                  | _ -> "?")
             with Failure m -> "ERR:" ^ m | Not_found -> "ERR:notfound" in
           print_string (id ^ " " ^ res ^ "\n")
